@@ -175,3 +175,35 @@ func replayC08Param(rc *runCtx, h *harness, v *interp.Violation, file string) (b
 	}
 	return false, "the real binaries agree over the parameter sweep"
 }
+
+// replayC17Doc: the real binary's doc sub-command must list every rule group of the rule source.
+func replayC17Doc(rc *runCtx, h *harness, v *interp.Violation, file string) (bool, string) {
+	groups, err := embeddedGroups()
+	if err != nil || len(groups) == 0 {
+		return false, "no rule groups found in the rule source"
+	}
+	fe, err := buildFrontends()
+	if err != nil {
+		return false, err.Error()
+	}
+	defer fe.close()
+	bin := "go-critic"
+	if strings.Contains(h.Pkg, "gocritic") {
+		bin = "gocritic"
+	}
+	cmd := exec.Command(filepath.Join(fe.dir, bin), "doc")
+	cmd.Dir = repoDir
+	out, _ := cmd.CombinedOutput()
+	listed := map[string]int{}
+	for _, l := range strings.Split(string(out), "\n") {
+		if f := strings.Fields(l); len(f) > 0 {
+			listed[f[0]]++
+		}
+	}
+	for _, g := range groups {
+		if listed[g] != 1 {
+			return true, fmt.Sprintf("`%s doc` lists the rule group %s %d time(s) (%d checkers listed in all)", bin, g, listed[g], len(listed))
+		}
+	}
+	return false, fmt.Sprintf("`%s doc` lists all %d rule groups that have examples", bin, len(groups))
+}
